@@ -137,29 +137,52 @@ func viaXNet(in []byte, foreign bool) []item {
 	}
 }
 
-func viaOracle(in []byte, foreign bool) ([]item, htmltok.Result) {
+// viaOracle tokenizes with htmltok and normalises. With emulate set, three
+// x/net deviations that are cheap to reproduce exactly are applied to the
+// oracle's output instead of causing the whole input to be skipped, so that
+// the rest of such inputs is still compared:
+//
+//	D5: CDATA sections (AllowCDATA): x/net decodes character references in the
+//	    section text; the spec does not.
+//	D7: x/net decides "self-closing" by looking at the byte before '>', so
+//	    <a b=c/> (unquoted value "c/", not self-closing per spec) is reported
+//	    as self-closing.
+//	D8: x/net decodes character references in comment data (its Text()
+//	    unescapes everything that is not raw text); the spec does not.
+//
+// D5 and D8 are emulated by passing the oracle's data through x/net's own
+// UnescapeString.
+func viaOracle(in []byte, foreign, emulate bool) ([]item, htmltok.Result) {
 	r := htmltok.Tokenize(in, htmltok.Options{Scripting: true, NoStateSwitch: foreign})
 	var items []item
 	for _, t := range r.Tokens {
 		switch t.Kind {
 		case htmltok.Text:
-			items = appendText(items, nul(t.Data))
+			s := nul(t.Data)
+			if emulate && t.Mode == htmltok.ModeCDATA {
+				s = html.UnescapeString(s) // D5
+			}
+			items = appendText(items, s)
 		case htmltok.StartTag:
 			it := item{kind: "start", name: nul(t.Name), self: t.SelfClosing}
 			for _, a := range t.Attrs {
 				it.attrs = append(it.attrs, nul(a.Name)+"="+nul(a.Value))
 			}
+			if n := len(t.Attrs); emulate && n > 0 {
+				a := t.Attrs[n-1]
+				if a.HasValue && a.Quote == 0 && a.ValueEnd == t.End-1 && strings.HasSuffix(a.RawValue, "/") {
+					it.self = true // D7
+				}
+			}
 			items = append(items, it)
 		case htmltok.EndTag:
 			items = append(items, item{kind: "end", name: nul(t.Name)})
 		case htmltok.Comment:
-			// D8: x/net decodes character references in comment data (its
-			// Text() unescapes everything that is not raw text); the spec
-			// does not. Rather than skipping every comment that contains an
-			// '&', the oracle's data is passed through x/net's own
-			// UnescapeString so that everything else about the comment is
-			// still compared.
-			items = append(items, item{kind: "comment", text: html.UnescapeString(nul(t.Data))})
+			s := nul(t.Data)
+			if emulate {
+				s = html.UnescapeString(s) // D8
+			}
+			items = append(items, item{kind: "comment", text: s})
 		case htmltok.Doctype:
 			items = append(items, item{kind: "doctype", name: nul(t.Name)})
 		}
@@ -189,9 +212,6 @@ var (
 	// text contains "<!--", a '<' followed by something that is neither '/'
 	// nor an ASCII letter.
 	reScriptEscLT = regexp.MustCompile(`(?is)<script.*<!--.*<([^/a-zA-Z]|$)`)
-	// D5 (detected on the token stream, see xnetDeviation): CDATA sections
-	// (AllowCDATA): x/net decodes character references in the section text;
-	// the spec does not.
 	// D6: EOF inside the "DOCTYPE" / "[CDATA[" keyword of a markup
 	// declaration: x/net does not back up and returns an empty comment; the
 	// spec produces a bogus comment with the partial keyword as data.
@@ -202,10 +222,10 @@ var (
 	reBangGTEOF = regexp.MustCompile(`<!>$`)
 )
 
-// xnetDeviation returns a non-empty reason if the input (or the oracle's
-// tokenization of it) exhibits a construct on which x/net is known to deviate
-// from the spec.
-func xnetDeviation(in []byte, foreign bool, r htmltok.Result) string {
+// xnetDeviation returns a non-empty reason if the input exhibits a construct
+// on which x/net is known to deviate from the spec (other than D5, D7 and D8,
+// which are emulated, see viaOracle).
+func xnetDeviation(in []byte, foreign bool) string {
 	switch {
 	case reHexNoDigits.Match(in):
 		return "D1 &#x; decoded"
@@ -219,20 +239,6 @@ func xnetDeviation(in []byte, foreign bool, r htmltok.Result) string {
 		return "D6 EOF in partial DOCTYPE/CDATA keyword"
 	case reBangGTEOF.Match(in):
 		return "D9 <!> at EOF"
-	}
-	for _, t := range r.Tokens {
-		if t.Kind == htmltok.Text && t.Mode == htmltok.ModeCDATA && strings.Contains(t.Data, "&") {
-			return "D5 charrefs decoded in CDATA"
-		}
-		if t.Kind != htmltok.StartTag || len(t.Attrs) == 0 {
-			continue
-		}
-		// D7: x/net decides "self-closing" by looking at the byte before '>',
-		// so <a b=c/> (unquoted value "c/", not self-closing per spec) is
-		// reported as self-closing.
-		if a := t.Attrs[len(t.Attrs)-1]; a.HasValue && a.Quote == 0 && strings.HasSuffix(a.RawValue, "/") {
-			return "D7 unquoted value ending in / taken as self-closing"
-		}
 	}
 	return ""
 }
@@ -545,12 +551,12 @@ func equalItems(a, b []item) bool {
 
 func compare(t *testing.T, in []byte, foreign bool, skipped map[string]int) (compared bool) {
 	t.Helper()
-	mine, r := viaOracle(in, foreign)
+	mine, r := viaOracle(in, foreign, true)
 	theirs := viaXNet(in, foreign)
 	if equalItems(mine, theirs) {
 		return true
 	}
-	if why := xnetDeviation(htmltok.Preprocess(in), foreign, r); why != "" {
+	if why := xnetDeviation(htmltok.Preprocess(in), foreign); why != "" {
 		skipped[why]++
 		return false
 	}
@@ -615,10 +621,11 @@ func TestKnownDeviations(t *testing.T) {
 		{"D5", "<![CDATA[&amp;]]>", true, `[text:"&amp;"]`},
 		{"D6", "<!DOCT", false, `[comment:"DOCT"]`},
 		{"D7", "<a b=c/>", false, `[<a "b=c/">]`},
+		{"D8", "<!--&amp;-->", false, `[comment:"&amp;"]`},
 		{"D9", "<!>", false, `[comment:""]`},
 	}
 	for _, c := range cases {
-		mine, r := viaOracle([]byte(c.in), c.foreign)
+		mine, _ := viaOracle([]byte(c.in), c.foreign, false)
 		theirs := viaXNet([]byte(c.in), c.foreign)
 		if got := fmt.Sprint(mine); got != c.want {
 			t.Errorf("%s %q: oracle gives %s, want %s", c.why, c.in, got, c.want)
@@ -626,8 +633,15 @@ func TestKnownDeviations(t *testing.T) {
 		if equalItems(mine, theirs) {
 			t.Errorf("%s %q: x/net now agrees with the spec (%v); drop the exclusion", c.why, c.in, theirs)
 		}
-		if why := xnetDeviation(htmltok.Preprocess([]byte(c.in)), c.foreign, r); !strings.HasPrefix(why, c.why) {
-			t.Errorf("%s %q: classified as %q", c.why, c.in, why)
+		switch c.why {
+		case "D5", "D7", "D8":
+			if emulated, _ := viaOracle([]byte(c.in), c.foreign, true); !equalItems(emulated, theirs) {
+				t.Errorf("%s %q: emulation gives %v, x/net %v", c.why, c.in, emulated, theirs)
+			}
+		default:
+			if why := xnetDeviation(htmltok.Preprocess([]byte(c.in)), c.foreign); !strings.HasPrefix(why, c.why) {
+				t.Errorf("%s %q: classified as %q", c.why, c.in, why)
+			}
 		}
 	}
 }
